@@ -12,7 +12,7 @@ import (
 // C11Case: a set of files (possibly none) by content.
 type C11Case struct {
 	Files  [][]byte `json:"files"`
-	Beyond int      `json:"beyond"` // how many positions past the last file are probed
+	Beyond int      `json:"beyond"`          // how many positions past the last file are probed
 	Order  []int    `json:"order,omitempty"` // further global positions (modulo the used range) looked up in this order
 }
 
@@ -55,7 +55,14 @@ func checkC11(ci interface{}, st *Stats) (err error) {
 		pf = append(pf, f)
 	}
 	if len(c.Files)%2 == 0 {
-		fs = parsley.NewFileSet(pf...)
+		// the caller's slice has spare capacity and is reused afterwards: the set must not depend on it
+		arg := append(make([]parsley.File, 0, len(pf)+2), pf...)
+		fs = parsley.NewFileSet(arg...)
+		decoy := text.NewFile("decoy", []byte("x\ny"))
+		for i := range arg {
+			arg[i] = decoy
+		}
+		_ = append(arg, decoy)
 	} else {
 		for _, f := range pf {
 			fs.AddFile(f)
